@@ -179,7 +179,7 @@ func draw(run *core.Run) *workload {
 	w.spec = gen.Source(t, opt)
 	w.decKind = t.Draw(faults.NumKinds)
 	w.resKind = t.Draw(faults.NumKinds)
-	w.script = edits.Script(t, 4, opt.Conflicts)
+	w.script = edits.Script(t, 4, opt.Conflicts, true)
 	w.alias = map[string]string{}
 	if t.Bool(1, 3) {
 		n := 1 + t.Draw(2)
